@@ -51,9 +51,9 @@ func (z *Decimal) Sqrt(x *Decimal) *Decimal {
 	// MantExp sets the argument's precision to the receiver's, and
 	// when z.prec > x.prec this will lower z.prec. Restore it after
 	// the MantExp call.
-	prec := z.prec
+	prec, mode := z.prec, z.mode
 	b := x.MantExp(z)
-	z.prec = prec
+	z.prec, z.mode = prec, mode
 
 	// Compute √(z·10**b) as
 	//   √( z)·10**(½b)     if b is even
@@ -128,8 +128,30 @@ func (z *Decimal) sqrtInverse(x *Decimal) {
 	}
 	// t = 1/√x
 
-	// x/√x = √x
-	z.Mul(z, t)
+	// s = x/√x ≈ √x, truncated to z.prec+1 digits. The rounding digit and the
+	// sticky bit must come from the exact root: adjust s until
+	// s² <= x < (s+ulp)², then round once.
+	s := new(Decimal).SetPrec(uint(z.prec) + 1).SetMode(ToZero).Mul(x, t)
+	sq := new(Decimal).SetPrec(2*uint(s.prec) + 2)
+	one, ulp := NewDecimal(1, 0), new(Decimal)
+	for sq.Mul(s, s).Cmp(x) > 0 {
+		s.Sub(s, ulp.SetMantExp(one, int(s.exp)-int(s.prec)))
+	}
+	for {
+		u.SetPrec(uint(s.prec)).SetMode(ToZero).Add(s, ulp.SetMantExp(one, int(s.exp)-int(s.prec)))
+		if sq.Mul(u, u).Cmp(x) > 0 {
+			break
+		}
+		s.Set(u)
+	}
+	if sq.Mul(s, s).Cmp(x) != 0 {
+		// s < √x < s+ulp. That open interval contains no number of z.prec+1
+		// digits, hence no rounding boundary for z.prec digits: all of its
+		// elements round like √x. Use its midpoint s+ulp/2 (exact).
+		ulp.SetMantExp(oneHalf, int(s.exp)-int(s.prec))
+		s.SetPrec(uint(s.prec) + 1).Add(s, ulp)
+	}
+	z.Set(s)
 }
 
 // newDecimal returns a new *Decimal with space for twice the given
